@@ -168,11 +168,11 @@ def _ipv6 (b, off, end, r, pfx, depth):
   n_ext = 0
   while nh in (0, 43, 60, 44):
     if end - lo < 8:
-      r.issue("length", name, "extension-chain", "next header %d needs 8 bytes" % nh, end - lo)
+      r.malformed.append(name + ": next header %d needs 8 bytes, %d left" % (nh, end - lo))
       return
     l = 8 if nh == 44 else (b[lo + 1] + 1) * 8
     if lo + l > end:
-      r.issue("length", name, "extension-chain", "header of %d bytes fits in %d" % (l, end - lo), l)
+      r.malformed.append(name + ": extension header of %d bytes, %d left" % (l, end - lo))
       return
     r.spans.append((name + ".ext%d" % nh, lo, lo + l))
     if nh == 44 and (u16(b, lo + 2) & 0xfff9):
